@@ -486,7 +486,10 @@ class LoopGen:
                     out += self.arm(f, d, depth)
             elif r < 0.64:
                 if self.free or depth == 0 or self.cls[f] == 'B':
-                    out += ['CF', str(f)]
+                    # cancel(), or the operations of a non-owning device that cancel: attach / assign of its own descriptor; release() anywhere
+                    out += [rng.choice(['CF', 'CF', 'CF', 'AT', 'AS']), str(f)]
+                else:
+                    out += ['RL', str(f)]
             elif r < 0.67:
                 if self.allow_close and (self.free or depth == 0 or self.cls[f] == 'B'):
                     out += ['CL', str(f)]
@@ -663,6 +666,66 @@ def gen_reuse_case(rng):
     return '%ss %d %s' % (rng.choice('lh'), nfd, ' '.join(toks))
 
 
+def gen_owner_case(rng):
+    """aimed at basic_io_device::close() / attach() / assign() for BOTH ownership modes: read, write and read+write waits (plain waits and
+    composite operations) armed on a device that owns its descriptor or not (release() / attach()), then close() / re-attach / re-assign
+    from a phase (another thread while the loop polls) or from a handler (loop thread): every armed handler must be told canceled before
+    the loop sleeps again; afterwards the device is used again (a non-owning device keeps its descriptor after close())"""
+    k = [0]
+
+    def new():
+        k[0] += 1
+        return k[0]
+    f = 0
+    ph0 = []
+    own = rng.choice(['own', 'RL', 'AT', 'RLAS'])
+    if own == 'RL':
+        ph0 += ['RL', '0']
+    elif own == 'AT':
+        ph0 += ['AT', '0']
+    elif own == 'RLAS':
+        ph0 += ['RL', '0', 'AS', '0']
+    arms = []
+    if rng.random() < 0.75:
+        arms += [rng.choice(['I', 'I', 'RS', 'RA'])]
+    if rng.random() < 0.6 or not arms:
+        arms += [rng.choice(['O', 'WS', 'WA'])]
+        ph0 += ['F', '0']
+    pre = []
+    for op in arms:
+        pre += [op, str(new()), '0'] + (['2'] if op in ('RA', 'WA') else [])
+    late_arm = rng.random() < 0.3
+    if not late_arm:
+        ph0 += pre
+    closer = [rng.choice(['CL', 'CL', 'AT', 'AS' if own in ('RL', 'AT') else 'CL']), '0']
+    bodies = []
+    phases = [ph0]
+    if late_arm:
+        phases.append(pre)                       # armed from another thread while the loop polls
+    if rng.random() < 0.5:
+        phases.append(closer)
+    else:
+        p = new()
+        phases.append(['P', str(p)])
+        bodies.append((p, closer))
+    phases.append([])
+    # use the device again: a non-owning device still has its descriptor after close(); an owning one gets a reused number
+    again = [rng.choice(['I', 'RS']), str(new()), '0', 'W', '0']
+    if own == 'own' or (own == 'RLAS' and closer[0] == 'CL'):
+        phases.append(['RO', '0'] + again)
+    else:
+        phases.append((['D', '0'] if rng.random() < 0.5 else []) + again)
+    phases += [[], [closer[0], '0'], []]
+    toks = []
+    for i, p in enumerate(phases):
+        if i:
+            toks.append('/')
+        toks += p
+    for kk, ops in bodies:
+        toks += ['[', str(kk)] + ops + [']']
+    return '%ss 1 %s' % (rng.choice('lh'), ' '.join(toks))
+
+
 def gen_timerobj_case(rng):
     """aimed at deadline_timer OBJECT state (event_id_): a handler re-arms its own timer object - from a fired and from a cancelled completion
     (periodic / watchdog pattern) - and a later cancel() / re-arm follows; cancel() while the wait is outstanding must deliver `canceled`.
@@ -800,6 +863,10 @@ def gen_cases(ctx):
             cases.append('loop %s %s' % (r, c))
     for _ in range(ctx.scale(150, 2000)):
         cases.append('loop %s %s' % (rng.choice('eps'), gen_timerobj_case(rng)))
+    for _ in range(ctx.scale(120, 2000)):
+        c = gen_owner_case(rng)
+        for r in 'eps':
+            cases.append('loop %s %s' % (r, c))
     for _ in range(ctx.scale(100, 2000)):
         c = gen_spurious_case(rng)
         for r in 'eps':
@@ -930,6 +997,9 @@ def oracle_loop(c, out):
         if f == 'SLEPTPAST':
             return ('timer-overslept', 'the loop went to sleep in the reactor for longer than the time left to the deadline of an armed timer '
                     '(poll timeout computed wrongly, or a timer armed as the new earliest while polling did not wake the loop)')
+        if f == 'CLOSEPENDING':
+            return ('close-did-not-cancel-waits', 'the loop went to sleep although handlers that were outstanding when their device was closed / '
+                    're-attached / re-assigned had not been invoked: close() (also of a device that does not own its descriptor) must cancel the waits')
         if f == 'MISSEDREADY':
             return ('readable-armed-descriptor-not-reported', 'the loop went to sleep for ever although an open descriptor with unread input had a read '
                     'wait outstanding (the reactor did not register / report the descriptor - e.g. a stale cached mask for a reused descriptor number)')
@@ -1091,7 +1161,8 @@ def run(ctx):
         '[ k body ] ...: operations P post, T/U arm deadline_timer / raw timer (relative deadline, may be 0 or negative), CT cancel timer, '
         'I/O wait readable/writable on socketpair f (stream_socket::on_readable/on_writeable), RS/WS stream_socket::async_read_some/async_write_some '
         '(user handler checked for a positive byte count on success and 0 on failure), CF cancel, CL close, RO f a new socket that receives the '
-        'descriptor NUMBER of the closed device f (dup2) is assigned to the device, TO k obj d / CO obj arm / cancel() the deadline_timer OBJECT obj '
+        'descriptor NUMBER of the closed device f (dup2) is assigned to the device, RL/AT/AS f release() / attach() / assign() of the device (non-owning devices: '
+        'close() cancels the waits and keeps the descriptor), TO k obj d / CO obj arm / cancel() the deadline_timer OBJECT obj '
         '(handlers may re-arm their own object; effective cancels are reported and must complete with canceled), W/R/F/D/K make the peer '
         'write / read / fill / drain / hang up, A advance the virtual clock, X stop (+reset and run again). Phase 0 runs before the loop '
         '(no reactor: deferred), phase i runs inside the i-th reactor poll (other-thread path: deferred + self-pipe wake-up), a body runs '
